@@ -74,7 +74,7 @@ def _strategy(tier, name):
     @st.composite
     def case(draw):
         dim = 2 if name.endswith("2d") else 3
-        fk = ["constant", "poly", "bumps", "spikes", "checker", "noise", "mixed"]
+        fk = ["constant", "poly", "bumps", "spikes", "checker", "noise", "mixed", "boxnoise"]
         return {
             "kernel": name,
             "shape": draw(gen.grid_shape(dim, 5, hi2 if dim == 2 else hi3)),
